@@ -30,41 +30,7 @@ FIELDS = [
 ]
 
 
-def prefix_expr(e, p):
-    k = e[0]
-    if k in ("f",):
-        return ["f", p + e[1]]
-    if k == "ps":
-        return ["ps", p + e[1]] + e[2:]
-    if k == "bin":
-        return ["bin", e[1], prefix_expr(e[2], p), prefix_expr(e[3], p)]
-    if k == "not":
-        return ["not", prefix_expr(e[1], p)]
-    if k == "in":
-        items = []
-        for it in e[2]:
-            if it[0] == "rng":
-                items.append(["rng", prefix_expr(it[1], p), prefix_expr(it[2], p)] + it[3:])
-            else:
-                items.append(prefix_expr(it, p))
-        return ["in", prefix_expr(e[1], p), items] + e[3:]
-    if k == "dyn":
-        return ["dyn", p + e[1]]
-    return e
-
-
-def prefix_stmt(s, p):
-    k = s[0]
-    if k in ("expr", "soft"):
-        return [k, prefix_expr(s[1], p)]
-    if k == "if":
-        return ["if", [[prefix_expr(c, p), [prefix_stmt(b, p) for b in body]] for c, body in s[1]],
-                None if s[2] is None else [prefix_stmt(b, p) for b in s[2]]]
-    if k == "implies":
-        return ["implies", prefix_expr(s[1], p), [prefix_stmt(b, p) for b in s[2]]]
-    if k == "unique":
-        return ["unique", [prefix_expr(e, p) for e in s[1]]]
-    return s
+prefix_expr, prefix_stmt = sem.prefix_expr, sem.prefix_stmt
 
 
 def gen_inline(d, g):
